@@ -27,7 +27,7 @@ BUDGET = {'quick': {'runs': 2500, 'cap_s': 60, 'wall_s': 110, 'chunk': 20},
           'thorough': {'runs': 40000, 'cap_s': 180, 'wall_s': 1500, 'chunk': 100}}
 
 RADII = [1, 1.01, 2 ** 0.5, 1.5, 3 ** 0.5, 2, 2.5, 3]
-THRESH = [0.3, 0.5, 0.75, 1.0]
+THRESH = [0.3, 0.5, 0.75, 1.0, 0.7, 0.6, 0.2, 0.9]
 
 
 def _cell(o, v):
@@ -132,7 +132,9 @@ def brute_geometry(mask, radius, threshold):
     An outcome is (sorted neighbour list, accepted?).  Squared distances between voxels are integers and exact; a voxel
     whose distance equals the radius up to floating-point rounding (radius = sqrt(2) as a float is larger than the true
     sqrt(2), so "strictly below" holds in exact arithmetic and fails in float arithmetic) may be in or out, and a mask
-    fraction equal to the threshold up to rounding may be accepted or not: the statement does not settle rounding"""
+    fraction equal to the threshold up to rounding may be accepted or not: the statement does not settle rounding.
+    Undecided means: exact rational arithmetic and a *double-precision* evaluation of the comparison (in either of its
+    usual algebraic forms) disagree; anything else -- single precision included -- is decided by exact arithmetic"""
     shape = mask.shape
     vox = list(itertools.product(range(shape[0]), range(shape[1]), range(shape[2])))
     lin = lambda v: v[0] * shape[1] * shape[2] + v[1] * shape[2] + v[2]
@@ -148,10 +150,13 @@ def brute_geometry(mask, radius, threshold):
         must, may = [], []
         for v in vox:
             d2 = (v[0] - c[0]) ** 2 + (v[1] - c[1]) ** 2 + (v[2] - c[2]) ** 2
-            if abs(d2 - r2) <= tol and Fraction(d2) != r2x:
-                may.append(v)             # equal only up to rounding: undecided
-            elif Fraction(d2) < r2x:
-                must.append(v)            # (a distance exactly equal to the radius is not strictly below it)
+            exact_in = Fraction(d2) < r2x          # (a distance exactly equal to the radius is not strictly below it)
+            # double-precision evaluations of the same comparison that an implementation may legitimately use
+            dbl = {float(np.sqrt(float(d2))) < float(radius), float(d2) < r2}
+            if dbl != {exact_in}:
+                may.append(v)             # exact arithmetic and a double-precision evaluation disagree: undecided
+            elif exact_in:
+                must.append(v)
         outcomes = []
         for nb in ([must] if not may else [must, must + may]):
             if not nb:
@@ -159,11 +164,14 @@ def brute_geometry(mask, radius, threshold):
                 continue
             frac = sum(1 for v in nb if mask[v]) / len(nb)
             lst = sorted(lin(v) for v in nb)
-            fx = Fraction(sum(1 for v in nb if mask[v]), len(nb))
-            if abs(frac - threshold) <= 1e-12 and fx != thx:
-                outcomes += [(lst, True), (lst, False)]      # equal only up to rounding: undecided
+            k_in = sum(1 for v in nb if mask[v])
+            fx = Fraction(k_in, len(nb))
+            exact_ok = fx >= thx
+            dbl = {float(k_in) / float(len(nb)) >= float(threshold), float(k_in) >= float(threshold) * float(len(nb))}
+            if dbl != {exact_ok}:
+                outcomes += [(lst, True), (lst, False)]      # exact arithmetic and a double-precision evaluation disagree
             else:
-                outcomes.append((lst, fx >= thx))
+                outcomes.append((lst, exact_ok))
         out.append((lin(c), outcomes))
     return out
 
@@ -183,7 +191,10 @@ def check_geometry(ctx, mask, radius, threshold, tag=''):
             pass
         ctx.probe('geometry_prehistory')
     try:
-        centers, neighbors = get_volume_searchlight(mask, radius=radius, threshold=threshold)
+        # (numbers arrive as Python scalars or as numpy scalars, e.g. elements of np.arange(...) / 10)
+        as_np = tag == 'prehistory' or (int(mask.sum()) % 2 == 1)
+        centers, neighbors = get_volume_searchlight(mask, radius=np.float64(radius) if as_np else radius,
+                                                    threshold=np.float64(threshold) if as_np else threshold)
     except Exception as e:
         kind = 'empty' if not n_sure else 'nonempty'
         ctx.violation('sl_ref.geometry', f'get_volume_searchlight:raises:{kind}',
